@@ -26,15 +26,17 @@ PID = "C04"
 
 
 def select(cases, tier, seed):
-    if tier == "thorough":
-        return cases
     rng = random.Random(seed * 2654435761 % (2 ** 31))
     keep = []
     for c in cases:
         k = c["k"]
+        if k in ("multi", "skip"):
+            continue            # C06 / C07
         if k == "enum_item":
-            if rng.random() < 0.08:
+            if rng.random() < (1.0 if tier == "thorough" else 0.08):
                 keep.append(c)
+        elif tier == "thorough":
+            keep.append(c)
         elif k == "pos":
             if c["ver"] == 171 or rng.random() < 0.15:
                 keep.append(c)
